@@ -57,6 +57,9 @@ SHAPES = {
     "cyc-mutual": "(set 'hz-v (vector 1)) (set 'hz-w (sorted-map \"v\" hz-v)) (append! hz-v hz-w)",
     "cyc-nested": "(set 'hz-v (vector 1)) (append! hz-v (list 1 (sorted-map \"in\" (list (vector hz-v)))))",
     "cyc-in-list": "(set 'hz-u (vector 1)) (append! hz-u hz-u) (set 'hz-v (list 1 hz-u \"x\"))",
+    # cycles that pass through a tagged value (a deftype / new instance)
+    "cyc-tagged": "(deftype hz-box (x) x) (set 'hz-m (sorted-map)) (set 'hz-v (new hz-box hz-m)) (assoc! hz-m \"k\" hz-v)",
+    "cyc-tagged-vec": "(deftype hz-box (x) x) (set 'hz-u (vector 1)) (set 'hz-v (new hz-box hz-u)) (append! hz-u hz-v)",
     "deep-vec": "(set 'hz-v (vector)) (dotimes (i 3000) (set 'hz-v (vector hz-v)))",
     "deep-list": "(set 'hz-v ()) (dotimes (i 3000) (set 'hz-v (list hz-v)))",
     "dag": "(set 'hz-v 1) (dotimes (i 12) (set 'hz-v (list hz-v hz-v)))",
